@@ -227,6 +227,9 @@ class Engine:
             body = coerce(body, rty) if body.ty != rty else body
             app = f(*names)
             self.global_axioms.append(('ghost:%s/def' % name, z3.ForAll(names, app == body.term, patterns=[app])))
+            if not hasattr(self, 'ghost_defs'):
+                self.ghost_defs = {}
+            self.ghost_defs[f.name()] = (names, body.term)
 
     def find_contract(self, qual):
         return self.sc.contracts.get(qual)
@@ -761,6 +764,27 @@ class FuncVerifier:
             res = SV(z3.If(tv, res.term, cv.term) if is_and else z3.If(tv, cv.term, res.term), ty)
         return res
 
+    @staticmethod
+    def _none_test(test):
+        """(name, True) for `name is not None`, (name, False) for `name is None`"""
+        if isinstance(test, ast.Compare) and len(test.ops) == 1 and isinstance(test.left, ast.Name) \
+                and isinstance(test.comparators[0], ast.Constant) and test.comparators[0].value is None:
+            if isinstance(test.ops[0], ast.IsNot):
+                return test.left.id, True
+            if isinstance(test.ops[0], ast.Is):
+                return test.left.id, False
+        return None, None
+
+    def _ifexp_strip(self, node, a, b):
+        """`x if x is not None else e`: the first branch is x known to be non-None"""
+        nm, pos = self._none_test(node.test)
+        if nm is not None:
+            if pos and isinstance(node.body, ast.Name) and node.body.id == nm and a.ty.is_opt:
+                a = SV(a.term, a.ty.strip_opt())
+            if not pos and isinstance(node.orelse, ast.Name) and node.orelse.id == nm and b.ty.is_opt:
+                b = SV(b.term, b.ty.strip_opt())
+        return a, b
+
     def ev_IfExp(self, node, st, spec):
         c = self.truthy(self.ev(node.test, st, spec))
         if not spec and not self.binders and not self.bound_env:
@@ -769,6 +793,7 @@ class FuncVerifier:
             a = self.ev(node.body, s1, spec)
             b = self.ev(node.orelse, s2, spec)
             self.merge_into(st, [s1, s2], conds=[c, simp_not(c)])
+            a, b = self._ifexp_strip(node, a, b)
             ty = T.join(a.ty, b.ty)
             return SV(z3.If(c, coerce(a, ty).term, coerce(b, ty).term), ty)
         saved = st.pc
@@ -786,6 +811,7 @@ class FuncVerifier:
         if self.binders:
             self.binders.pop()
         st.pc = saved
+        a, b = self._ifexp_strip(node, a, b)
         ty = T.join(a.ty, b.ty)
         return SV(z3.If(c, coerce(a, ty).term, coerce(b, ty).term), ty)
 
@@ -1160,7 +1186,11 @@ class FuncVerifier:
         if guards:
             b = z3.Implies(z3.And(*guards), b) if is_forall else z3.And(*(guards + [b]))
         q = z3.ForAll if is_forall else z3.Exists
-        return SV(q(vars_, b, patterns=pats) if pats else q(vars_, b), BOOL)
+        try:
+            return SV(q(vars_, b, patterns=pats) if pats else q(vars_, b), BOOL)
+        except z3.Z3Exception as e:
+            raise EngineError('%s: invalid trigger %s (line %s): triggers must not contain if-then-else or connectives'
+                              % (self.qual, [str(p)[:200] for p in pats], getattr(node, 'lineno', '?')))
 
     def pattern_term(self, node, st):
         sv = self.ev(node, st, True)
@@ -1407,6 +1437,10 @@ class FuncVerifier:
     def ex_Assign(self, s, st):
         self._cur_stmt = s
         sv = self.ev(s.value, st, False)
+        if len(s.targets) == 1 and isinstance(s.targets[0], ast.Name) and sv.term.sort() == P.V \
+                and self.pattern_unsafe(sv.term):
+            # a container / object value built from a conditional: name it, so that invariants may use it in triggers
+            sv = self.pattern_safe(st, sv)
         for t in s.targets:
             self.assign_into(t, sv, st)
 
